@@ -357,7 +357,15 @@ impl Ctx {
                 if self.is_known(&signature).is_some() {
                     self.note_known(&signature);
                     if count {
-                        self.stats.lock().unwrap().evaluations += 1;
+                        // a case that reproduces a recorded finding is an explored, non-trivial case
+                        let bytes = serde_json::to_vec(case).unwrap_or_default();
+                        let mut key = part.as_bytes().to_vec();
+                        key.extend_from_slice(&bytes);
+                        let mut st = self.stats.lock().unwrap();
+                        st.evaluations += 1;
+                        st.nontrivial_total += 1;
+                        *st.classes.entry("reproduces-known-finding").or_default() += 1;
+                        st.distinct.insert(fingerprint(&key));
                     }
                     Ok(())
                 } else {
